@@ -350,7 +350,12 @@ pub fn exec(world: &mut World, op: &Value) -> String {
             let p = pb!();
             let it = p.wrap_iter(0..n);
             let mut c = 0u64;
-            for _ in it { c += 1; }
+            // external iteration (`for`), or internal iteration through Iterator::fold (count, for_each): the adaptor is consumed by value either way
+            match op.get("how").and_then(|x| x.as_str()).unwrap_or("for") {
+                "count" => { c = it.count() as u64; }
+                "for_each" => { it.for_each(|_| c += 1); }
+                _ => { for _ in it { c += 1; } }
+            }
             return format!("{c}");
         }
         "set_target" => { let t = op.get("target").and_then(|x| x.as_str()).unwrap_or("spy").to_string(); let hz = op.get("hz").and_then(|x| x.as_u64()).unwrap_or(0); let tg = world.target(&t, hz); pb!().set_draw_target(tg); }
